@@ -256,9 +256,21 @@ pub fn run_child(env: &WorkerEnv, bin: &str, spec: ChildSpec) -> Result<ChildRes
     for k in &spec.env_remove {
         cmd.env_remove(k);
     }
-    if let Some(p) = &spec.stdout_to {
+    if let Some(p) = spec.stdout_to.as_ref().filter(|p| p.as_path() != Path::new("closed-pipe")) {
         let f = std::fs::OpenOptions::new().write(true).open(p).map_err(|e| format!("open {}: {e}", p.display()))?;
         cmd.stdout(Stdio::from(f));
+    }
+    if spec.stdout_to.as_deref() == Some(Path::new("closed-pipe")) {
+        // standard output is a pipe whose reader has gone (`svgdx .. | head -0`)
+        let mut fds = [0i32; 2];
+        if unsafe { libc::pipe(fds.as_mut_ptr()) } != 0 {
+            return Err("pipe".into());
+        }
+        unsafe {
+            libc::close(fds[0]);
+            use std::os::fd::FromRawFd;
+            cmd.stdout(Stdio::from(std::fs::File::from_raw_fd(fds[1])));
+        }
     }
     if let Some(p) = &spec.stderr_to {
         let f = std::fs::OpenOptions::new().write(true).open(p).map_err(|e| format!("open {}: {e}", p.display()))?;
